@@ -11,16 +11,18 @@ replaces every non-overlapping match and copies everything else.
 namespace Pyxv.Refs
 open Pyxv
 
-/-- `re.sub(BRACKETED_TAG_REGEX, repl, s)`; `repl ls name = none` is the PyXFormError of an unknown/ambiguous name.
-Fuel: `s.length + 1` suffices. -/
-def substRefs (repl : Bool → Str → Option Str) : Nat → Str → Option Str
+/-- `re.sub(BRACKETED_TAG_REGEX, repl, s)`; `repl atStart rest ls name = none` is the PyXFormError of an
+unknown/ambiguous name.  `atStart` is the text from the `$` of the match on and `rest` the text behind its `}`
+(the match object's `start()` / `end()` relative to the whole string: `whole.length - atStart.length`,
+`whole.length - rest.length`).  Fuel: `s.length + 1` suffices. -/
+def substRefs (repl : Str → Str → Bool → Str → Option Str) : Nat → Str → Option Str
   | 0, _ => none
   | _ + 1, [] => some []
   | fuel + 1, c :: r =>
     if c = '$' ∧ r.head? = some '{' then
       match Chan.matchRef r.tail with
       | some (ls, name, rest) =>
-        match repl ls name, substRefs repl fuel rest with
+        match repl (c :: r) rest ls name, substRefs repl fuel rest with
         | some v, some out => some (v ++ out)
         | _, _ => none
       | none => (substRefs repl fuel r).map (c :: ·)
@@ -51,6 +53,125 @@ def refsClosed : Nat → Str → Bool
 
 /-- `insert_xpaths(text, context, use_current, reference_parent)` with the occurrence-level flags fixed -/
 def insertXpaths (els : List Chain) (ctx : Option Chain) (fl : Flags) (s : Str) : Option Str :=
-  substRefs (fun ls name => (refFor els ctx name { fl with lastSaved := ls }).text) (s.length + 1) s
+  substRefs (fun _ _ ls name => (refFor els ctx name { fl with lastSaved := ls }).text) (s.length + 1) s
+
+/-! ## the occurrence-level flags, computed from the cell text (survey.py 1142-1232) -/
+
+def instanceTag : Str := "instance(".toList
+def indexedTag : Str := "indexed-repeat(".toList
+
+/-- `RE_INSTANCE = instance\([^)]+.+` matched *at* this position: `instance(`, one character that is not `)`,
+then (after any further non-`)` characters, which the greedy `[^)]+` may give back) one character that is not a
+newline — i.e. some non-newline character follows the first one. -/
+def reInstanceHere (s : Str) : Bool :=
+  startsWith s instanceTag &&
+    match s.drop instanceTag.length with
+    | [] => false
+    | c :: r => c != ')' && r.any (· != '\n')
+
+/-- `RE_INSTANCE.search(s) is not None` -/
+def reInstanceSearch : Str → Bool
+  | [] => false
+  | c :: r => reInstanceHere (c :: r) || reInstanceSearch r
+
+/-- bracket depth after reading `s` (the loop of `_in_secondary_instance_predicate` since 63a5727) -/
+def bracketDepth (depth : Nat) : Str → Nat
+  | [] => depth
+  | c :: r =>
+    if c = '[' then bracketDepth (depth + 1) r
+    else if c = ']' ∧ depth > 0 then bracketDepth (depth - 1) r
+    else bracketDepth depth r
+
+/-- `_in_secondary_instance_predicate()` for the occurrence `whole[start:end]` -/
+def inPredicateAt (whole : Str) (start end_ : Nat) : Bool :=
+  reInstanceSearch whole && bracketDepth 0 (whole.take start) > 0 && (whole.drop end_).contains ']'
+
+/-- `[^)]+\)` after `indexed-repeat(`: the argument text and what follows the `)` -/
+def takeArgs : Str → Option (Str × Str)
+  | [] => none
+  | c :: r =>
+    if c = ')' then some ([], r)
+    else match takeArgs r with
+      | some (a, rest) => some (c :: a, rest)
+      | none => none
+
+/-- `RE_INDEXED_REPEAT.finditer(s)`: non-overlapping leftmost matches as (start, end, argument text); `pos` is the
+index of the head of `s` in the whole string.  Fuel: `s.length + 1`. -/
+def indexedRepeatMatches : Nat → Nat → Str → List (Nat × Nat × Str)
+  | 0, _, _ => []
+  | _ + 1, _, [] => []
+  | fuel + 1, pos, c :: r =>
+    if startsWith (c :: r) indexedTag then
+      match takeArgs ((c :: r).drop indexedTag.length) with
+      | some (a, rest) =>
+        if a.isEmpty then indexedRepeatMatches fuel (pos + 1) r
+        else (pos, pos + indexedTag.length + a.length + 1, a) ::
+          indexedRepeatMatches fuel (pos + indexedTag.length + a.length + 1) rest
+      | none => indexedRepeatMatches fuel (pos + 1) r
+    else indexedRepeatMatches fuel (pos + 1) r
+
+/-- index of the last argument that contains `${name}` (`for idx, arg in enumerate(args): if name_arg in arg.strip()`;
+the needle starts with `$` and ends with `}`, so stripping the argument cannot remove an occurrence) -/
+def lastArgWith (needle : Str) : Nat → List Str → Option Nat → Option Nat
+  | _, [], acc => acc
+  | i, a :: as, acc => lastArgWith needle (i + 1) as (if isInfix needle a then some i else acc)
+
+/-- The verdict of `_is_return_relative_path`'s indexed-repeat part for the occurrence `whole[start:end]` of `${name}`:
+`some true` = absolute by design, `some false` = relative allowed; `none` = the argument text contains a newline, where
+`RE_FUNCTION_ARGS` (`.` does not match a newline) does not see the argument list the way it is modelled here. -/
+def indexedArgAt (whole : Str) (start end_ : Nat) (name : Str) : Option Bool :=
+  match (indexedRepeatMatches (whole.length + 1) 0 whole).find? fun (a, b, _) => a ≤ start && end_ ≤ b with
+  | none => some false
+  | some (_, _, args) =>
+    if args.contains '\n' then none
+    else
+      let needle := '$' :: '{' :: name ++ ['}']
+      match lastArgWith needle 0 (splitOnChar ',' args) none with
+      | some i => some (i == 0 || i == 1 || i == 3 || i == 5)
+      | none => some true
+
+inductive TextOut where
+  | ok (s : Str)
+  /-- PyXFormError naming the reference -/
+  | unknown (name : Str)
+  | ambiguous (name : Str)
+  | unsupported
+deriving DecidableEq, Repr, Inhabited
+
+/-- the replacement for one occurrence, flags computed from the cell text -/
+def replAt (els : List Chain) (ctx : Option Chain) (useCurrent referenceParent : Bool) (whole : Str)
+    (atStart rest : Str) (ls : Bool) (name : Str) : Option Out :=
+  let start := whole.length - atStart.length
+  let end_ := whole.length - rest.length
+  match indexedArgAt whole start end_ name with
+  | none => none
+  | some ia =>
+    some (refFor els ctx name { lastSaved := ls, indexedArg := ia, inPredicate := inPredicateAt whole start end_,
+                                useCurrent := useCurrent, referenceParent := referenceParent })
+
+/-- **`Survey.insert_xpaths(text, context, use_current, reference_parent)` from the cell text alone.** -/
+def insertXpathsText (els : List Chain) (ctx : Option Chain) (useCurrent referenceParent : Bool) (whole : Str) :
+    Option Str :=
+  substRefs (fun atStart rest ls name =>
+    match replAt els ctx useCurrent referenceParent whole atStart rest ls name with
+    | some o => o.text
+    | none => none) (whole.length + 1) whole
+
+/-- the first failing reference, for the error message: unknown / ambiguous name, or outside the fragment -/
+def firstFailure (els : List Chain) (ctx : Option Chain) (useCurrent referenceParent : Bool) (whole : Str) :
+    Nat → Str → TextOut
+  | 0, _ => .unsupported
+  | _ + 1, [] => .ok []
+  | fuel + 1, c :: r =>
+    if c = '$' ∧ r.head? = some '{' then
+      match Chan.matchRef r.tail with
+      | some (ls, name, rest) =>
+        match replAt els ctx useCurrent referenceParent whole (c :: r) rest ls name with
+        | none => .unsupported
+        | some (.unknown n) => .unknown n
+        | some (.ambiguous n) => .ambiguous n
+        | some (.ok _ _) => firstFailure els ctx useCurrent referenceParent whole fuel rest
+      | none => firstFailure els ctx useCurrent referenceParent whole fuel r
+    else firstFailure els ctx useCurrent referenceParent whole fuel r
 
 end Pyxv.Refs
